@@ -1,2 +1,1155 @@
-// stub created by the lead so that the workspace always loads; replace it with the check
-fn main() {}
+//! C17 — TCP stream framing is independent of how the bytes are chunked.
+//!
+//! E-STATE on the REAL state machine `hickory_net::tcp::TcpStream` (built with `from_stream`
+//! over a scripted socket `SimTcp: DnsTcpStream`, driven through its `BufDnsStreamHandle`),
+//! polled by hand with a no-op waker — no runtime. A node is the list of answers given so far at
+//! the decision points of a run:
+//!
+//! * driver point (between two `poll_next` calls): poll | hand the next message to the handle |
+//!   drop the handle;
+//! * `poll_read(buf)`: Pending | n bytes for EVERY n in 1..=min(buf.len(), remaining) | EOF (at
+//!   every byte position) | I/O error;
+//! * `poll_write[_vectored]`: Pending | accept EVERY n in 1..=offered | I/O error
+//!   (`Ok(0)` is outside the alphabet);
+//! * `poll_flush`: Ok | Pending | I/O error.
+//!
+//! Every node is re-executed from scratch on a fresh machine (the object is not clonable).
+//! State matching on (decision point incl. buffer size, bytes consumed, bytes accepted, flushed,
+//! messages handed over, handle alive, messages yielded, errors used, pending/error flag,
+//! terminal). The matching argument is validated by a matching-free enumeration of ALL answer
+//! sequences of every short stream, which must reach exactly the BFS's key set with the same
+//! verdicts, and by a run-to-completion check from every state.
+//!
+//! Oracle (`vref::frame`, RFC 1035 4.2.2 + the statement): items yielded are exactly the framed
+//! messages, whole, in order (nothing truncated, merged, duplicated, invented or withheld);
+//! EOF at a frame boundary ends the stream cleanly, EOF inside a length prefix or a body yields an
+//! error; the bytes accepted by the socket are at all times a prefix of
+//! len16(m1) m1 len16(m2) m2 ...; from every state a fair continuation delivers everything
+//! (all messages yielded, all bytes accepted and flushed).
+
+use std::collections::HashSet;
+use std::io;
+use std::net::SocketAddr;
+use std::pin::Pin;
+use std::sync::atomic::Ordering;
+use std::sync::{Arc, Mutex};
+use std::task::{Context, Poll};
+use std::time::Duration;
+
+use futures_io::{AsyncRead, AsyncWrite, IoSlice};
+use futures_util::stream::Stream;
+use futures_util::task::noop_waker;
+use hickory_net::runtime::{DnsTcpStream, TokioTime};
+use hickory_net::tcp::{TcpClientStream, TcpStream};
+use hickory_net::{BufDnsStreamHandle, DnsStreamHandle};
+use hickory_proto::op::SerialMessage;
+use hickory_server::server::TimeoutStream;
+use serde_json::{json, Value};
+use vcore::{bfs, catch, Ctx, Local};
+use vref::frame::{self, AtEof, Pos};
+
+fn peer() -> SocketAddr {
+    "192.0.2.53:53".parse().unwrap()
+}
+
+/// Message k of a sequence, `len` bytes, every byte depends on (k, position).
+fn message(k: usize, len: usize) -> Vec<u8> {
+    (0..len).map(|i| ((k * 89 + i * 7 + 13) % 251) as u8).collect()
+}
+
+// ------------------------------------------------------------------------------------------
+// answers and decision points
+
+#[derive(Clone, Copy, Debug, PartialEq, Eq, Hash)]
+enum Choice {
+    // driver point
+    Poll,
+    Enqueue,
+    DropHandle,
+    // socket call
+    Pending,
+    N(u32),
+    Done, // flush Ok
+    Eof,
+    IoErr,
+}
+
+fn choice_json(c: &Choice) -> Value {
+    match c {
+        Choice::Poll => json!("poll"),
+        Choice::Enqueue => json!("enqueue"),
+        Choice::DropHandle => json!("drop-handle"),
+        Choice::Pending => json!("pending"),
+        Choice::N(n) => json!(n),
+        Choice::Done => json!("flush-ok"),
+        Choice::Eof => json!("eof"),
+        Choice::IoErr => json!("io-error"),
+    }
+}
+
+fn choice_from_json(v: &Value) -> Choice {
+    if let Some(n) = v.as_u64() {
+        return Choice::N(n as u32);
+    }
+    match v.as_str().unwrap_or("") {
+        "poll" => Choice::Poll,
+        "enqueue" => Choice::Enqueue,
+        "drop-handle" => Choice::DropHandle,
+        "pending" => Choice::Pending,
+        "flush-ok" => Choice::Done,
+        "eof" => Choice::Eof,
+        "io-error" => Choice::IoErr,
+        other => vcore::machinery_exit(&format!("bad choice {other:?} in replay")),
+    }
+}
+
+#[derive(Clone, Copy, Debug, PartialEq, Eq, Hash)]
+enum Point {
+    Driver,
+    Read { buf: u32 },
+    Write { offered: u32, vectored: bool },
+    Flush,
+    Terminal,
+}
+
+const F_READ_PENDING: u16 = 1;
+const F_WRITE_PENDING: u16 = 2;
+const F_FLUSH_PENDING: u16 = 4;
+const F_READ_ERR: u16 = 8;
+const F_WRITE_ERR: u16 = 16;
+const F_FLUSH_ERR: u16 = 32;
+const F_EOF: u16 = 64;
+const F_ZERO_BUF_READ: u16 = 128;
+const F_IDLE: u16 = 256;
+
+struct Shared {
+    script: Vec<Choice>,
+    pos: usize,
+    /// run-to-completion mode: when the script is used up, answer with the fair default
+    /// (deliver / accept up to `chunk` bytes, flush Ok, Pending once the inbound stream is used up)
+    auto_chunk: Option<usize>,
+    inbound: Arc<Vec<u8>>,
+    consumed: usize,
+    accepted: Vec<u8>,
+    /// accepted.len() at the last successful flush
+    flushed_at: Option<usize>,
+    /// a write was started at a message boundary that had not been flushed (observation only)
+    unflushed_boundary_writes: u32,
+    out_boundaries: Arc<Vec<usize>>,
+    frozen: Option<Point>,
+    eof_answered: bool,
+    flags: u16,
+    errors_used: u8,
+    /// 0 = the last answer made progress; 1/2 = Pending / I/O error at a read; 3/4 at a write; 5/6 at a flush
+    nonprogress: u8,
+    bad_script: Option<String>,
+}
+
+impl Shared {
+    fn next(&mut self) -> Option<Choice> {
+        if self.pos < self.script.len() {
+            self.pos += 1;
+            Some(self.script[self.pos - 1])
+        } else {
+            None
+        }
+    }
+}
+
+struct SimTcp(Arc<Mutex<Shared>>);
+
+impl DnsTcpStream for SimTcp {
+    type Time = TokioTime;
+}
+
+fn sim_err() -> io::Error {
+    io::Error::new(io::ErrorKind::ConnectionReset, "scripted I/O error")
+}
+
+impl AsyncRead for SimTcp {
+    fn poll_read(self: Pin<&mut Self>, _cx: &mut Context<'_>, buf: &mut [u8]) -> Poll<io::Result<usize>> {
+        let mut s = self.0.lock().unwrap();
+        if s.frozen.is_some() {
+            return Poll::Pending;
+        }
+        if buf.is_empty() {
+            // what every conforming reader does for an empty buffer; no decision involved
+            s.flags |= F_ZERO_BUF_READ;
+            return Poll::Ready(Ok(0));
+        }
+        if s.eof_answered {
+            s.flags |= F_EOF;
+            return Poll::Ready(Ok(0));
+        }
+        let remaining = s.inbound.len() - s.consumed;
+        let max = buf.len().min(remaining);
+        let c = match s.next() {
+            Some(c) => c,
+            None => match s.auto_chunk {
+                Some(chunk) if max > 0 => Choice::N(max.min(chunk) as u32),
+                Some(_) => {
+                    s.flags |= F_IDLE | F_READ_PENDING;
+                    return Poll::Pending;
+                }
+                None => {
+                    s.frozen = Some(Point::Read { buf: buf.len().min(u32::MAX as usize) as u32 });
+                    return Poll::Pending;
+                }
+            },
+        };
+        match c {
+            Choice::Pending => {
+                s.flags |= F_READ_PENDING;
+                s.nonprogress = 1;
+                Poll::Pending
+            }
+            Choice::N(n) if n >= 1 && (n as usize) <= max => {
+                let n = n as usize;
+                let from = s.consumed;
+                buf[..n].copy_from_slice(&s.inbound[from..from + n]);
+                s.consumed += n;
+                s.nonprogress = 0;
+                Poll::Ready(Ok(n))
+            }
+            Choice::Eof => {
+                s.eof_answered = true;
+                s.flags |= F_EOF;
+                Poll::Ready(Ok(0))
+            }
+            Choice::IoErr => {
+                s.errors_used += 1;
+                s.flags |= F_READ_ERR;
+                s.nonprogress = 2;
+                Poll::Ready(Err(sim_err()))
+            }
+            other => {
+                s.bad_script = Some(format!("answer {other:?} at poll_read(buf {}, remaining {remaining})", buf.len()));
+                s.frozen = Some(Point::Terminal);
+                Poll::Pending
+            }
+        }
+    }
+}
+
+impl SimTcp {
+    fn write(&self, bufs: &[&[u8]], vectored: bool) -> Poll<io::Result<usize>> {
+        let mut s = self.0.lock().unwrap();
+        if s.frozen.is_some() {
+            return Poll::Pending;
+        }
+        let offered: usize = bufs.iter().map(|b| b.len()).sum();
+        if offered == 0 {
+            // nothing offered: Ok(0) is the only possible answer, no decision
+            return Poll::Ready(Ok(0));
+        }
+        let c = match s.next() {
+            Some(c) => c,
+            None => match s.auto_chunk {
+                Some(chunk) => Choice::N(offered.min(chunk) as u32),
+                None => {
+                    s.frozen = Some(Point::Write { offered: offered as u32, vectored });
+                    return Poll::Pending;
+                }
+            },
+        };
+        match c {
+            Choice::Pending => {
+                s.flags |= F_WRITE_PENDING;
+                s.nonprogress = 3;
+                Poll::Pending
+            }
+            Choice::N(n) if n >= 1 && (n as usize) <= offered => {
+                let at = s.accepted.len();
+                if at > 0 && s.out_boundaries.contains(&at) && s.flushed_at != Some(at) {
+                    s.unflushed_boundary_writes += 1;
+                }
+                let mut left = n as usize;
+                for b in bufs {
+                    let k = left.min(b.len());
+                    s.accepted.extend_from_slice(&b[..k]);
+                    left -= k;
+                    if left == 0 {
+                        break;
+                    }
+                }
+                s.nonprogress = 0;
+                Poll::Ready(Ok(n as usize))
+            }
+            Choice::IoErr => {
+                s.errors_used += 1;
+                s.flags |= F_WRITE_ERR;
+                s.nonprogress = 4;
+                Poll::Ready(Err(sim_err()))
+            }
+            other => {
+                s.bad_script = Some(format!("answer {other:?} at poll_write(offered {offered})"));
+                s.frozen = Some(Point::Terminal);
+                Poll::Pending
+            }
+        }
+    }
+}
+
+impl AsyncWrite for SimTcp {
+    fn poll_write(self: Pin<&mut Self>, _cx: &mut Context<'_>, buf: &[u8]) -> Poll<io::Result<usize>> {
+        self.write(&[buf], false)
+    }
+    fn poll_write_vectored(self: Pin<&mut Self>, _cx: &mut Context<'_>, bufs: &[IoSlice<'_>]) -> Poll<io::Result<usize>> {
+        let v: Vec<&[u8]> = bufs.iter().map(|b| &b[..]).collect();
+        self.write(&v, true)
+    }
+    fn poll_flush(self: Pin<&mut Self>, _cx: &mut Context<'_>) -> Poll<io::Result<()>> {
+        let mut s = self.0.lock().unwrap();
+        if s.frozen.is_some() {
+            return Poll::Pending;
+        }
+        let c = match s.next() {
+            Some(c) => c,
+            None => match s.auto_chunk {
+                Some(_) => Choice::Done,
+                None => {
+                    s.frozen = Some(Point::Flush);
+                    return Poll::Pending;
+                }
+            },
+        };
+        match c {
+            Choice::Done => {
+                s.flushed_at = Some(s.accepted.len());
+                s.nonprogress = 0;
+                Poll::Ready(Ok(()))
+            }
+            Choice::Pending => {
+                s.flags |= F_FLUSH_PENDING;
+                s.nonprogress = 5;
+                Poll::Pending
+            }
+            Choice::IoErr => {
+                s.errors_used += 1;
+                s.flags |= F_FLUSH_ERR;
+                s.nonprogress = 6;
+                Poll::Ready(Err(sim_err()))
+            }
+            other => {
+                s.bad_script = Some(format!("answer {other:?} at poll_flush"));
+                s.frozen = Some(Point::Terminal);
+                Poll::Pending
+            }
+        }
+    }
+    fn poll_close(self: Pin<&mut Self>, _cx: &mut Context<'_>) -> Poll<io::Result<()>> {
+        Poll::Ready(Ok(()))
+    }
+}
+
+// ------------------------------------------------------------------------------------------
+// the machines under test
+
+#[derive(Clone, Copy, Debug, PartialEq, Eq)]
+enum Wrapper {
+    Plain,
+    Client,
+    Timeout,
+}
+
+enum Machine {
+    Plain(TcpStream<SimTcp>),
+    Client(TcpClientStream<SimTcp>),
+    Timeout(TimeoutStream<TcpStream<SimTcp>>),
+}
+
+type Item = Option<Result<Vec<u8>, String>>;
+
+impl Machine {
+    fn poll(&mut self, cx: &mut Context<'_>) -> Poll<Item> {
+        fn conv<E: std::fmt::Display>(r: Option<Result<SerialMessage, E>>, bad_addr: &mut bool) -> Item {
+            r.map(|x| match x {
+                Ok(m) => {
+                    if m.addr() != peer() {
+                        *bad_addr = true;
+                    }
+                    Ok(m.into_parts().0)
+                }
+                Err(e) => Err(e.to_string()),
+            })
+        }
+        let mut bad = false;
+        let r = match self {
+            Machine::Plain(s) => Pin::new(s).poll_next(cx).map(|r| conv(r, &mut bad)),
+            Machine::Client(s) => Pin::new(s).poll_next(cx).map(|r| conv(r, &mut bad)),
+            Machine::Timeout(s) => Pin::new(s).poll_next(cx).map(|r| conv(r, &mut bad)),
+        };
+        if bad {
+            return Poll::Ready(Some(Err("HARNESS: message with a foreign source address".into())));
+        }
+        r
+    }
+}
+
+thread_local! {
+    /// `TimeoutStream` creates tokio `Sleep`s: they need a runtime context with a (paused) clock.
+    /// Nothing ever drives the runtime, so virtual time stands still and no timeout fires.
+    static RT: tokio::runtime::Runtime = tokio::runtime::Builder::new_current_thread().enable_time().start_paused(true).build().unwrap();
+}
+
+// ------------------------------------------------------------------------------------------
+// instances
+
+struct Inst {
+    label: String,
+    wrapper: Wrapper,
+    inbound: Arc<Vec<u8>>,
+    /// body ranges of the messages the reference finds in the whole inbound stream
+    /// (zero-length frames skipped: after one nothing is demanded, see `zero_at`)
+    in_frames: Vec<(usize, usize)>,
+    /// offset of the first zero-length frame, if any
+    zero_at: Option<usize>,
+    out_msgs: Vec<Vec<u8>>,
+    out_image: Vec<u8>,
+    out_boundaries: Arc<Vec<usize>>,
+    max_errors: u8,
+    allow_drop: bool,
+}
+
+impl Inst {
+    fn new(label: String, wrapper: Wrapper, inbound: Vec<u8>, out_lens: &[usize], max_errors: u8, allow_drop: bool) -> Inst {
+        // reference parse, skipping zero-length frames
+        let mut in_frames = vec![];
+        let mut zero_at = None;
+        let mut base = 0usize;
+        loop {
+            let (fr, pos) = frame::frames(&inbound[base..]);
+            in_frames.extend(fr.iter().map(|(s, n)| (base + s, *n)));
+            match pos {
+                Pos::ZeroFrame { at } => {
+                    if zero_at.is_none() {
+                        zero_at = Some(base + at);
+                    }
+                    base += at + 2;
+                }
+                _ => break,
+            }
+        }
+        let out_msgs: Vec<Vec<u8>> = out_lens.iter().enumerate().map(|(k, l)| message(100 + k, *l)).collect();
+        let out_image = frame::frame(&out_msgs);
+        let mut b = vec![];
+        let mut p = 0;
+        for m in &out_msgs {
+            p += 2 + m.len();
+            b.push(p);
+        }
+        Inst { label, wrapper, inbound: Arc::new(inbound), in_frames, zero_at, out_msgs, out_image, out_boundaries: Arc::new(b), max_errors, allow_drop }
+    }
+    fn to_json(&self) -> Value {
+        json!({
+            "label": self.label,
+            "wrapper": format!("{:?}", self.wrapper),
+            "inbound_hex": vcore::hex::enc(&self.inbound),
+            "out_lens": self.out_msgs.iter().map(|m| m.len()).collect::<Vec<_>>(),
+            "max_errors": self.max_errors,
+            "allow_drop": self.allow_drop,
+        })
+    }
+    fn from_json(v: &Value) -> Inst {
+        let wrapper = match v["wrapper"].as_str().unwrap_or("Plain") {
+            "Client" => Wrapper::Client,
+            "Timeout" => Wrapper::Timeout,
+            _ => Wrapper::Plain,
+        };
+        let inbound = vcore::hex::dec(v["inbound_hex"].as_str().unwrap_or("")).unwrap_or_default();
+        let out_lens: Vec<usize> = v["out_lens"].as_array().map(|a| a.iter().map(|x| x.as_u64().unwrap() as usize).collect()).unwrap_or_default();
+        Inst::new(
+            v["label"].as_str().unwrap_or("replay").to_string(),
+            wrapper,
+            inbound,
+            &out_lens,
+            v["max_errors"].as_u64().unwrap_or(1) as u8,
+            v["allow_drop"].as_bool().unwrap_or(false),
+        )
+    }
+    /// number of reference messages completely contained in inbound[..consumed]
+    fn complete_frames(&self, consumed: usize) -> usize {
+        self.in_frames.iter().take_while(|(s, n)| s + n <= consumed).count()
+    }
+}
+
+fn inbound_of(lens: &[usize]) -> Vec<u8> {
+    let msgs: Vec<Vec<u8>> = lens.iter().enumerate().map(|(k, l)| message(k, *l)).collect();
+    frame::frame(&msgs)
+}
+
+// ------------------------------------------------------------------------------------------
+// one execution
+
+#[derive(Clone, Debug, PartialEq, Eq, Hash)]
+struct RunOut {
+    point: Point,
+    consumed: u32,
+    accepted: u32,
+    flushed_cur: bool,
+    enq: u8,
+    alive: bool,
+    yielded: u8,
+    errs: u8,
+    nonprogress: u8,
+    /// 0 running, 1 ended (None), 2 error at EOF
+    terminal: u8,
+    violated: bool,
+}
+
+fn classify_yield(got: &[u8], inst: &Inst, idx: usize, complete: usize, prev: Option<&Vec<u8>>) -> Option<(String, String)> {
+    let exp = inst.in_frames.get(idx).map(|(s, n)| &inst.inbound[*s..*s + *n]);
+    if idx >= complete {
+        // nothing complete is outstanding: whatever this is, it was not delivered whole yet
+        let class = if prev.map(|p| &p[..] == got).unwrap_or(false) {
+            "duplicated"
+        } else if exp.map(|e| e.starts_with(got) && got.len() < e.len()).unwrap_or(false) {
+            "truncated"
+        } else if got.is_empty() {
+            "empty-item"
+        } else {
+            "invented"
+        };
+        return Some((format!("read:yield:{class}"), format!("item #{idx} ({} bytes) yielded while only {complete} framed messages were delivered completely", got.len())));
+    }
+    let exp = exp.unwrap();
+    if got == exp {
+        return None;
+    }
+    let class = if got.len() < exp.len() && exp.starts_with(got) {
+        "truncated"
+    } else if got.len() > exp.len() && got.starts_with(exp) {
+        "merged"
+    } else if prev.map(|p| &p[..] == got).unwrap_or(false) {
+        "duplicated"
+    } else if inst.in_frames.iter().any(|(s, n)| &inst.inbound[*s..*s + *n] == got) {
+        "out-of-order"
+    } else if got.len() == exp.len() {
+        "corrupted"
+    } else {
+        "misframed"
+    };
+    Some((format!("read:yield:{class}"), format!("item #{idx}: got {} bytes, the framed message has {}", got.len(), exp.len())))
+}
+
+/// length of the framed image of the first `enq` outbound messages
+fn handed_len(inst: &Inst, enq: usize) -> usize {
+    if enq == 0 { 0 } else { inst.out_boundaries[enq - 1] }
+}
+
+/// Execute `script` on a fresh machine. `auto`: continue fairly after the script (run to
+/// completion) and judge completeness. Violations go to `l` (case = instance + script).
+fn run(inst: &Inst, script: &[Choice], auto: Option<usize>, l: &mut Local) -> RunOut {
+    let shared = Arc::new(Mutex::new(Shared {
+        script: script.to_vec(),
+        pos: 0,
+        auto_chunk: auto,
+        inbound: inst.inbound.clone(),
+        consumed: 0,
+        accepted: Vec::new(),
+        flushed_at: None,
+        unflushed_boundary_writes: 0,
+        out_boundaries: inst.out_boundaries.clone(),
+        frozen: None,
+        eof_answered: false,
+        flags: 0,
+        errors_used: 0,
+        nonprogress: 0,
+        bad_script: None,
+    }));
+    let (stream, handle): (TcpStream<SimTcp>, BufDnsStreamHandle) = TcpStream::from_stream(SimTcp(shared.clone()), peer());
+    let mut mach = match inst.wrapper {
+        Wrapper::Plain => Machine::Plain(stream),
+        Wrapper::Client => Machine::Client(TcpClientStream::from_stream(stream)),
+        Wrapper::Timeout => Machine::Timeout(TimeoutStream::new(stream, Duration::from_secs(360))),
+    };
+    let mut handle = Some(handle);
+    let waker = noop_waker();
+    let mut cx = Context::from_waker(&waker);
+
+    let mut enq = 0usize;
+    let mut yielded: Vec<Vec<u8>> = vec![];
+    let mut terminal = 0u8;
+    let mut violated = false;
+    let mut point = Point::Driver;
+    let mut auto_polls = 0usize;
+    let mut idle_polls = 0usize;
+    let case = |script: &[Choice]| json!({"instance": inst.to_json(), "script": script.iter().map(choice_json).collect::<Vec<_>>(), "auto": auto});
+    let viol = |l: &mut Local, key: &str, what: &str, violated: &mut bool| {
+        *violated = true;
+        l.violation(key, what, || case(script));
+    };
+
+    loop {
+        let c = shared.lock().unwrap().next();
+        let c = match c {
+            Some(c) => c,
+            None => match auto {
+                None => {
+                    point = Point::Driver;
+                    break;
+                }
+                Some(_) => {
+                    if handle.is_some() && enq < inst.out_msgs.len() {
+                        Choice::Enqueue
+                    } else {
+                        auto_polls += 1;
+                        if auto_polls > 40 + 4 * (inst.in_frames.len() + inst.out_msgs.len()) {
+                            viol(l, "completion:did-not-quiesce", "the machine keeps returning without reaching quiescence under a fair environment", &mut violated);
+                            break;
+                        }
+                        Choice::Poll
+                    }
+                }
+            },
+        };
+        match c {
+            Choice::Enqueue => {
+                if let Some(h) = handle.as_mut() {
+                    if enq < inst.out_msgs.len() {
+                        if h.send(SerialMessage::new(inst.out_msgs[enq].clone(), peer())).is_err() {
+                            shared.lock().unwrap().bad_script = Some("handle.send failed".into());
+                        }
+                        enq += 1;
+                        continue;
+                    }
+                }
+                shared.lock().unwrap().bad_script = Some("enqueue not possible here".into());
+                break;
+            }
+            Choice::DropHandle => {
+                handle = None;
+                continue;
+            }
+            Choice::Poll => {}
+            other => {
+                shared.lock().unwrap().bad_script = Some(format!("answer {other:?} at a driver point"));
+                break;
+            }
+        }
+        shared.lock().unwrap().flags = 0;
+        let r = mach.poll(&mut cx);
+        let (frozen, flags, consumed, accepted_ok) = {
+            let s = shared.lock().unwrap();
+            (s.frozen, s.flags, s.consumed, inst.out_image.starts_with(&s.accepted) && s.accepted.len() <= handed_len(inst, enq))
+        };
+        // S5: accepted bytes are a prefix of the framed image of what was handed over
+        if !accepted_ok {
+            let s = shared.lock().unwrap();
+            let limit = frame::frame(&inst.out_msgs[..enq]);
+            let first_bad = s.accepted.iter().zip(limit.iter()).position(|(a, b)| a != b).unwrap_or(limit.len().min(s.accepted.len()));
+            let class = if s.accepted.len() > limit.len() && s.accepted.starts_with(&limit) {
+                "extra-bytes".to_string()
+            } else {
+                // where in the image does the first wrong byte sit?
+                let mut start = 0usize;
+                let mut class = "body";
+                for b in inst.out_boundaries.iter() {
+                    if first_bad < *b {
+                        class = if first_bad < start + 2 { "length-prefix" } else { "body" };
+                        break;
+                    }
+                    start = *b;
+                }
+                class.to_string()
+            };
+            drop(s);
+            viol(l, &format!("write:not-a-prefix-of-framed-image:{class}"), &format!("first wrong byte at offset {first_bad}"), &mut violated);
+        }
+        if frozen.is_some() {
+            // the script ended inside this poll: the return value is an artefact of freezing
+            point = frozen.unwrap();
+            if let Point::Read { .. } = point {
+                // the machine asks for more input: every completely delivered message must be out
+                let complete = inst.complete_frames(consumed);
+                let before_zero = inst.zero_at.map(|z| consumed <= z).unwrap_or(true);
+                if before_zero && yielded.len() < complete {
+                    viol(l, "read:message-withheld", &format!("{} messages delivered completely, {} yielded, and the machine waits for more input", complete, yielded.len()), &mut violated);
+                }
+            }
+            break;
+        }
+        let complete = inst.complete_frames(consumed);
+        let after_zero = inst.zero_at.map(|z| consumed >= z + 2).unwrap_or(false);
+        let cause = flags & (F_READ_ERR | F_WRITE_ERR | F_FLUSH_ERR | F_ZERO_BUF_READ) != 0;
+        let eof = flags & F_EOF != 0;
+        let eof_expect = if eof { Some(frame::at_eof(&inst.inbound[..consumed])) } else { None };
+        let eof_where = || match frame::frames(&inst.inbound[..consumed]).1 {
+            Pos::Boundary => "boundary",
+            Pos::InLength => "inside-length",
+            Pos::InBody { .. } => "inside-body",
+            Pos::ZeroFrame { .. } => "after-zero-frame",
+        };
+        match r {
+            Poll::Pending => {
+                if eof {
+                    viol(l, &format!("eof:pending:{}", eof_where()), "the connection was closed but the stream neither ended nor failed", &mut violated);
+                    terminal = 2;
+                } else if flags & F_READ_PENDING != 0 && !after_zero && yielded.len() < complete {
+                    viol(l, "read:message-withheld", &format!("{} messages delivered completely, {} yielded, and the machine waits for more input", complete, yielded.len()), &mut violated);
+                }
+                if flags & F_IDLE != 0 {
+                    idle_polls += 1;
+                    let s = shared.lock().unwrap();
+                    let out_done = s.accepted.len() == handed_len(inst, enq) && (s.accepted.is_empty() || s.flushed_at == Some(s.accepted.len()));
+                    drop(s);
+                    if out_done || idle_polls > 3 {
+                        break;
+                    }
+                }
+            }
+            Poll::Ready(None) => {
+                match eof_expect {
+                    None => viol(l, "read:spurious-end", "the stream ended although the connection was not closed", &mut violated),
+                    Some(AtEof::Error) => viol(l, &format!("eof:clean-end:{}", eof_where()), "connection closed inside a frame but the stream ended without an error", &mut violated),
+                    Some(_) => {}
+                }
+                if !after_zero && yielded.len() < complete {
+                    viol(l, "read:message-withheld", "stream ended with a completely delivered message not yielded", &mut violated);
+                }
+                terminal = 1;
+            }
+            Poll::Ready(Some(Ok(bytes))) => {
+                if let Some((k, w)) = classify_yield(&bytes, inst, yielded.len(), complete, yielded.last()) {
+                    viol(l, &k, &w, &mut violated);
+                }
+                yielded.push(bytes);
+                if eof {
+                    terminal = 2;
+                }
+            }
+            Poll::Ready(Some(Err(e))) => {
+                if e.starts_with("HARNESS") {
+                    viol(l, "read:foreign-source-address", &e, &mut violated);
+                }
+                match eof_expect {
+                    None => {
+                        if !cause {
+                            viol(l, "read:spurious-error", &format!("error item without an I/O error, EOF or zero-length frame: {e}"), &mut violated);
+                        }
+                    }
+                    Some(AtEof::CleanEnd) => {
+                        if !cause {
+                            viol(l, "eof:error-at-boundary", &format!("connection closed between messages but the stream reported: {e}"), &mut violated);
+                        }
+                        terminal = 2;
+                    }
+                    Some(_) => terminal = 2,
+                }
+                if flags & F_ZERO_BUF_READ != 0 {
+                    // zero-length frame: the machine cannot leave this state; treat as the end
+                    terminal = 2;
+                }
+            }
+        }
+        if terminal != 0 {
+            point = Point::Terminal;
+            break;
+        }
+    }
+
+    let s = shared.lock().unwrap();
+    if let Some(b) = &s.bad_script {
+        // a recorded answer that is not legal where it is replayed: nondeterminism / harness bug
+        eprintln!("MACHINERY-FAILURE property=C17 script does not fit the run: {b} (instance {}, script {:?})", inst.label, script);
+        std::process::exit(2);
+    }
+    if s.unflushed_boundary_writes > 0 {
+        l.outcome("obs:next-message-started-before-flush");
+    }
+    if auto.is_some() && !violated && terminal == 0 {
+        // S7: completeness under a fair continuation
+        let want_out = frame::frame(&inst.out_msgs[..enq]);
+        if yielded.len() != inst.in_frames.len() && inst.zero_at.is_none() {
+            drop(s);
+            viol(l, "completion:inbound-messages-missing", &format!("{} of {} framed messages yielded after the whole stream was delivered", yielded.len(), inst.in_frames.len()), &mut violated);
+        } else if s.accepted != want_out {
+            let (a, w) = (s.accepted.len(), want_out.len());
+            drop(s);
+            viol(l, "completion:outbound-incomplete", &format!("{a} of {w} framed bytes accepted by the socket at quiescence"), &mut violated);
+        } else if !s.accepted.is_empty() && s.flushed_at != Some(s.accepted.len()) {
+            drop(s);
+            viol(l, "completion:not-flushed", "all bytes accepted but no successful flush after the last one", &mut violated);
+        }
+    }
+    let s = shared.lock().unwrap();
+    RunOut {
+        point,
+        consumed: s.consumed as u32,
+        accepted: s.accepted.len() as u32,
+        flushed_cur: s.flushed_at == Some(s.accepted.len()),
+        enq: enq as u8,
+        alive: handle.is_some(),
+        yielded: yielded.len() as u8,
+        errs: s.errors_used,
+        nonprogress: s.nonprogress,
+        terminal,
+        violated,
+    }
+}
+
+/// The answers of the alphabet at the decision point a run stopped at.
+fn choices(inst: &Inst, o: &RunOut) -> Vec<Choice> {
+    let mut v = vec![];
+    let err_ok = o.errs < inst.max_errors;
+    match o.point {
+        Point::Terminal => {}
+        Point::Driver => {
+            v.push(Choice::Poll);
+            if o.alive && (o.enq as usize) < inst.out_msgs.len() {
+                v.push(Choice::Enqueue);
+            }
+            if o.alive && inst.allow_drop && (o.enq as usize) == inst.out_msgs.len() {
+                v.push(Choice::DropHandle);
+            }
+        }
+        Point::Read { buf } => {
+            let remaining = inst.inbound.len() - o.consumed as usize;
+            if o.nonprogress != 1 {
+                v.push(Choice::Pending);
+            }
+            v.push(Choice::Eof);
+            if err_ok {
+                v.push(Choice::IoErr);
+            }
+            for n in 1..=(buf as usize).min(remaining) {
+                v.push(Choice::N(n as u32));
+            }
+        }
+        Point::Write { offered, .. } => {
+            if o.nonprogress != 3 {
+                v.push(Choice::Pending);
+            }
+            if err_ok {
+                v.push(Choice::IoErr);
+            }
+            for n in 1..=offered {
+                v.push(Choice::N(n));
+            }
+        }
+        Point::Flush => {
+            v.push(Choice::Done);
+            if o.nonprogress != 5 {
+                v.push(Choice::Pending);
+            }
+            if err_ok {
+                v.push(Choice::IoErr);
+            }
+        }
+    }
+    v
+}
+
+fn nontrivial_digest(inst_id: u32, o: &RunOut, c: &Choice, inst: &Inst) -> Option<u64> {
+    // a short read/write or a Pending strictly inside a frame
+    let inside_in = {
+        let c0 = o.consumed as usize;
+        !matches!(frame::frames(&inst.inbound[..c0]).1, Pos::Boundary)
+    };
+    let inside_out = !(o.accepted == 0 || inst.out_boundaries.contains(&(o.accepted as usize)));
+    let hit = match (o.point, c) {
+        (Point::Read { buf }, Choice::N(n)) => *n < buf || inside_in,
+        (Point::Read { .. }, Choice::Pending) => inside_in,
+        (Point::Write { offered, .. }, Choice::N(n)) => *n < offered || inside_out,
+        (Point::Write { .. }, Choice::Pending) => inside_out,
+        _ => false,
+    };
+    if !hit {
+        return None;
+    }
+    let cc = match c {
+        Choice::N(n) => *n as u64 + 8,
+        Choice::Pending => 1,
+        _ => 0,
+    };
+    Some((inst_id as u64) << 44 ^ (o.consumed as u64) << 28 ^ (o.accepted as u64) << 12 ^ cc ^ ((o.nonprogress as u64) << 60))
+}
+
+#[derive(Clone)]
+struct Node {
+    inst: u32,
+    script: Vec<Choice>,
+    out: RunOut,
+}
+
+type Key = (u32, RunOut);
+
+fn guarded_run(inst: &Inst, script: &[Choice], auto: Option<usize>, l: &mut Local) -> Option<RunOut> {
+    let f = || run(inst, script, auto, l);
+    let r = if inst.wrapper == Wrapper::Timeout {
+        RT.with(|rt| {
+            let _g = rt.enter();
+            catch(f)
+        })
+    } else {
+        catch(f)
+    };
+    match r {
+        Ok(o) => Some(o),
+        Err(p) => {
+            l.violation(&format!("panic:{}", vcore::short_loc(&p.loc)), &format!("the stream machine panicked: {}", p.msg), || {
+                json!({"instance": inst.to_json(), "script": script.iter().map(choice_json).collect::<Vec<_>>(), "auto": auto})
+            });
+            None
+        }
+    }
+}
+
+fn run_bfs(ctx: &Ctx, insts: &[Inst], base: u32) -> vcore::BfsStats {
+    let mut roots = vec![];
+    ctx.with_local(|l| {
+        for (i, inst) in insts.iter().enumerate() {
+            if let Some(o) = guarded_run(inst, &[], None, l) {
+                roots.push((Node { inst: base + i as u32, script: vec![], out: o.clone() }, (base + i as u32, o)));
+            }
+        }
+    });
+    bfs(ctx, roots, 100_000, |node, l| {
+        let inst = &insts[(node.inst - base) as usize];
+        if node.out.violated || node.out.terminal != 0 {
+            return vec![];
+        }
+        // completion from this state (once per state)
+        l.eval();
+        guarded_run(inst, &node.script, Some(usize::MAX), l);
+        let mut succ = vec![];
+        for c in choices(inst, &node.out) {
+            let mut s = node.script.clone();
+            s.push(c);
+            l.eval();
+            if let Some(d) = nontrivial_digest(node.inst, &node.out, &c, inst) {
+                l.nontrivial(d);
+            }
+            if let Some(o) = guarded_run(inst, &s, None, l) {
+                let class = match (&c, o.terminal) {
+                    (Choice::Eof, 1) => "eof:clean-end",
+                    (Choice::Eof, _) => "eof:error",
+                    (Choice::Pending, _) => "answer:pending",
+                    (Choice::IoErr, _) => "answer:io-error",
+                    (Choice::N(_), _) => match node.out.point {
+                        Point::Read { .. } => "answer:read-n",
+                        _ => "answer:write-n",
+                    },
+                    (Choice::Done, _) => "answer:flush-ok",
+                    _ => "driver-op",
+                };
+                l.outcome(class);
+                ctx.traces_validated.fetch_add(1, Ordering::Relaxed);
+                succ.push((Node { inst: node.inst, script: s, out: o.clone() }, (node.inst, o)));
+            }
+        }
+        if node.script.len() == 6 && l.samples.len() < 2 {
+            l.sample(json!({"instance": inst.label, "script": node.script.iter().map(choice_json).collect::<Vec<_>>()}));
+        }
+        succ
+    })
+}
+
+/// Matching-free enumeration: every answer sequence of the instance, no deduplication.
+fn free_dfs(inst: &Inst, script: &mut Vec<Choice>, keys: &mut HashSet<RunOut>, runs: &mut u64, l: &mut Local) {
+    let Some(o) = guarded_run(inst, script, None, l) else { return };
+    *runs += 1;
+    l.eval();
+    let stop = o.violated || o.terminal != 0;
+    let cs = if stop { vec![] } else { choices(inst, &o) };
+    keys.insert(o);
+    for c in cs {
+        script.push(c);
+        free_dfs(inst, script, keys, runs, l);
+        script.pop();
+    }
+}
+
+// ------------------------------------------------------------------------------------------
+
+fn sequences(lens: &[usize], max_msgs: usize) -> Vec<Vec<usize>> {
+    let mut out = vec![];
+    let mut last: Vec<Vec<usize>> = vec![vec![]];
+    for _ in 0..max_msgs {
+        let mut next = vec![];
+        for s in &last {
+            for l in lens {
+                let mut t = s.clone();
+                t.push(*l);
+                next.push(t);
+            }
+        }
+        out.extend(next.iter().cloned());
+        last = next;
+    }
+    out
+}
+
+fn main() {
+    let ctx = Ctx::from_args("C17", "model_checking");
+    if let Err(e) = frame::self_test() {
+        vcore::machinery_exit(&format!("vref::frame self-test failed: {e}"));
+    }
+
+    if let Some((_key, case)) = ctx.replay_case() {
+        let inst = Inst::from_json(&case["instance"]);
+        let script: Vec<Choice> = case["script"].as_array().map(|a| a.iter().map(choice_from_json).collect()).unwrap_or_default();
+        let auto = case["auto"].as_u64().map(|x| x as usize);
+        ctx.with_local(|l| {
+            guarded_run(&inst, &script, auto, l);
+        });
+        ctx.finish(false);
+    }
+
+    let quick = ctx.quick();
+    let lens: Vec<usize> = if quick { vec![1, 2, 3, 255] } else { vec![1, 2, 3, 255, 256, 300] };
+    ctx.set_rule(&format!(
+        "E-STATE on the real TcpStream<SimTcp> (from_stream + BufDnsStreamHandle), manual polling: BFS over ALL answer sequences of the \
+         scripted socket and driver with state matching, to the fixpoint. Read grid: every sequence of 1..3 inbound messages with lengths \
+         from {lens:?} (+ streams with a zero-length frame); at every poll_read: Pending | every n in 1..=min(buf,remaining) | EOF | I/O \
+         error. Write grid: every sequence of 1..3 outbound messages (same lengths) handed over at every possible driver point; at every \
+         poll_write[_vectored]: Pending | every n in 1..=offered | I/O error; poll_flush: Ok | Pending | I/O error. Joint grid: inbound x \
+         outbound sequences of 1..2 messages with lengths {{1,2,3}} incl. dropping the handle. Conformance grids: TcpClientStream and \
+         TimeoutStream<TcpStream> wrappers on the joint grid. Matching-free cross-run: every answer sequence of every stream of <= 12 \
+         framed bytes without state matching must reach exactly the BFS key set. Big messages (65,535 / 32,768 bytes) with fixed chunk \
+         sizes. From every state a fair run to completion is judged. Non-trivial = transitions with a short read/write or a Pending \
+         strictly inside a frame, distinct by (instance, bytes consumed, bytes accepted, answer)."
+    ));
+    ctx.assume("vref::frame (RFC 1035 4.2.2 two-byte length framing) is the reference");
+    ctx.assume("state-matching argument: the machine's future depends only on the canonical key; tested by the matching-free cross-run and the completion run from every state");
+    ctx.assume("poll_write returning Ok(0) for a non-empty buffer is outside the alphabet (the statement quantifies over partial writes and would-block)");
+    ctx.assume("after an I/O error answered by the socket the run continues (at most E errors per run, E in the evidence); a poll after a Pending is a legal spurious poll");
+
+    let mut base = 0u32;
+    let mut grid_stats = serde_json::Map::new();
+    let mut all_fix = true;
+    let mut do_grid = |name: &str, insts: Vec<Inst>, base: &mut u32| -> vcore::BfsStats {
+        let st = run_bfs(&ctx, &insts, *base);
+        *base += insts.len() as u32;
+        eprintln!("[C17] grid {name}: instances={} states={} transitions={} depth={} fixpoint={} t={:.1}s", insts.len(), st.states, st.transitions, st.depth_completed, st.fixpoint, ctx.elapsed_s());
+        grid_stats.insert(name.to_string(), json!({"instances": insts.len(), "states": st.states, "transitions": st.transitions, "depth": st.depth_completed, "fixpoint": st.fixpoint}));
+        if !st.fixpoint {
+            all_fix = false;
+        }
+        st
+    };
+    let max_err = if quick { 1 } else { 2 };
+
+    // read grid
+    let mut insts = vec![];
+    for s in sequences(&lens, 3) {
+        insts.push(Inst::new(format!("read{s:?}"), Wrapper::Plain, inbound_of(&s), &[], max_err, false));
+    }
+    // zero-length frame alone, between and after messages; a frame announcing more than follows
+    // is every truncated stream above (EOF inside a body)
+    for (label, bytes) in [
+        ("zero", vec![0u8, 0]),
+        ("m1,zero,m2", [inbound_of(&[1]), vec![0, 0], frame::frame(&[message(1, 2)])].concat()),
+        ("m3,zero", [inbound_of(&[3]), vec![0, 0]].concat()),
+        ("zero,m255", [vec![0u8, 0], inbound_of(&[255])].concat()),
+    ] {
+        insts.push(Inst::new(format!("read[{label}]"), Wrapper::Plain, bytes, &[], max_err, false));
+    }
+    do_grid("read", insts, &mut base);
+
+    // write grid (the inbound stream is empty: reads can only be answered Pending / EOF / error)
+    let mut insts = vec![];
+    for s in sequences(&lens, 3) {
+        insts.push(Inst::new(format!("write{s:?}"), Wrapper::Plain, vec![], &s, max_err, false));
+    }
+    do_grid("write", insts, &mut base);
+
+    // joint grid
+    let small = sequences(&[1, 2, 3], 2);
+    let mut insts = vec![];
+    for i in &small {
+        for o in &small {
+            insts.push(Inst::new(format!("joint in{i:?} out{o:?}"), Wrapper::Plain, inbound_of(i), o, 1, true));
+        }
+    }
+    if !quick {
+        for (i, o) in [(vec![255usize], vec![300usize]), (vec![300, 2], vec![2, 256]), (vec![1, 256], vec![255, 1])] {
+            insts.push(Inst::new(format!("joint in{i:?} out{o:?}"), Wrapper::Plain, inbound_of(&i), &o, 1, true));
+        }
+    }
+    do_grid("joint", insts, &mut base);
+
+    // conformance grids on the wrappers
+    for (name, w) in [("client", Wrapper::Client), ("timeout", Wrapper::Timeout)] {
+        let mut insts = vec![];
+        let seqs = if quick { sequences(&[1, 3], 2) } else { small.clone() };
+        for i in &seqs {
+            for o in &seqs {
+                insts.push(Inst::new(format!("{name} in{i:?} out{o:?}"), w, inbound_of(i), o, 1, true));
+            }
+        }
+        insts.push(Inst::new(format!("{name} in[255, 2] out[2, 255]"), w, inbound_of(&[255, 2]), &[2, 255], 1, false));
+        do_grid(name, insts, &mut base);
+    }
+
+    // matching-free cross-run on short streams
+    {
+        let mut insts = vec![];
+        let cap = if quick { 10 } else { 12 };
+        for s in sequences(&[1, 2, 3, 5, 8], 3) {
+            let total: usize = s.iter().map(|l| l + 2).sum();
+            if total <= cap {
+                insts.push(Inst::new(format!("x-read{s:?}"), Wrapper::Plain, inbound_of(&s), &[], 1, false));
+                insts.push(Inst::new(format!("x-write{s:?}"), Wrapper::Plain, vec![], &s, 1, false));
+            }
+        }
+        for (i, o) in [(vec![1usize], vec![1usize]), (vec![2], vec![1]), (vec![1], vec![2])] {
+            insts.push(Inst::new(format!("x-joint in{i:?} out{o:?}"), Wrapper::Plain, inbound_of(&i), &o, 1, true));
+        }
+        let results: Mutex<Vec<(usize, usize, u64)>> = Mutex::new(vec![]);
+        ctx.par_run(insts.len() as u64, 1, |i, l| {
+            let mut keys = HashSet::new();
+            let mut runs = 0u64;
+            free_dfs(&insts[i as usize], &mut vec![], &mut keys, &mut runs, l);
+            results.lock().unwrap().push((i as usize, keys.len(), runs));
+        });
+        let mut results = results.into_inner().unwrap();
+        results.sort();
+        let free_keys: usize = results.iter().map(|r| r.1).sum();
+        let free_runs: u64 = results.iter().map(|r| r.2).sum();
+        let n = insts.len();
+        let st = do_grid("cross", insts, &mut base);
+        ctx.set("cross_run", json!({"streams": n, "runs_without_matching": free_runs, "keys_without_matching": free_keys, "bfs_states": st.states}));
+        eprintln!("[C17] cross-run: streams={n} runs={free_runs} keys={free_keys} bfs_states={} t={:.1}s", st.states, ctx.elapsed_s());
+        if free_keys as u64 != st.states {
+            ctx.machinery_failure(&format!("cross-run: matching-free enumeration reached {free_keys} keys, BFS with matching {}", st.states));
+        }
+    }
+
+    // big messages with fixed chunk sizes (E-ENUM supplement)
+    {
+        let mut cases = vec![];
+        for len in [300usize, 32_768, 65_535] {
+            for chunk in [1usize, 7, 1000, usize::MAX] {
+                if len > 1000 && chunk == 1 && quick {
+                    continue;
+                }
+                cases.push((len, chunk));
+            }
+        }
+        ctx.set("big_cases", json!(cases.len()));
+        ctx.par_run(cases.len() as u64, 1, |i, l| {
+            let (len, chunk) = cases[i as usize];
+            let inst = Inst::new(format!("big {len} chunk {chunk}"), Wrapper::Plain, inbound_of(&[len, 2]), &[len, 1], 0, false);
+            l.eval();
+            if let Some(o) = guarded_run(&inst, &[], Some(chunk), l) {
+                if !o.violated {
+                    l.outcome("big:complete");
+                }
+            }
+        });
+    }
+
+    ctx.set("grids", Value::Object(grid_stats));
+    ctx.set("max_io_errors_per_run", json!(max_err));
+    // vacuity guards
+    for class in ["eof:clean-end", "eof:error", "answer:pending", "answer:io-error", "answer:read-n", "answer:write-n", "answer:flush-ok", "big:complete"] {
+        if ctx.outcome_count(class) == 0 {
+            ctx.machinery_failure(&format!("vacuous run: outcome class {class} never exercised"));
+        }
+    }
+    if !all_fix {
+        ctx.cap("a BFS stopped at its depth bound before the fixpoint");
+    }
+    ctx.finish(true);
+}
